@@ -313,10 +313,24 @@ package caldav
 //@ func caldav.(*Client).QueryCalendar(c, ctx, calendar, query) (cos, err)
 //@   reveal propRelC
 //@   requires R1: c != nil && clientOK(c.ic) && query != nil && sentCount == 0
+//@   -- C14: the call fails exactly when the transport fails, the status is not 207 (a non-2xx status is carried by the error)
+//@   -- or the multi-status cannot be turned into objects; nothing is returned next to an error
+//@   ensures E1: doCalls == old(doCalls) || doCalls == old(doCalls) + 1
+//@   ensures E2: doCalls == old(doCalls) ==> err != nil
+//@   ensures E3: doCalls == old(doCalls) + 1 && (lastErr(c.ic) != nil || lastStatus(c.ic) != 207) ==> err != nil && (lastErr(c.ic) == nil && lastStatus(c.ic) / 100 != 2 ==> httpCode(err) == lastStatus(c.ic))
+//@   ensures E4: err == nil ==> doCalls == old(doCalls) + 1 && lastErr(c.ic) == nil && lastStatus(c.ic) == 207
+//@   ensures E5: err != nil ==> len(cos) == 0
 //@   ensures Q1: sentCount == 1 && sentMethod == "REPORT" && sentPath == calendar
 //@   ensures Q2: let w : dynPtr(sentBody, "*calendarQuery") in w != nil && compLevel(w.Filter.CompFilter, query.CompFilter) && calDataCarried(w.Prop, query.CompRequest)
 //@ func caldav.(*Client).MultiGetCalendar(c, ctx, path, multiGet) (cos, err)
 //@   requires R1: c != nil && clientOK(c.ic) && multiGet != nil && sentCount == 0
+//@   -- C14: the call fails exactly when the transport fails, the status is not 207 (a non-2xx status is carried by the error)
+//@   -- or the multi-status cannot be turned into objects; nothing is returned next to an error
+//@   ensures E1: doCalls == old(doCalls) || doCalls == old(doCalls) + 1
+//@   ensures E2: doCalls == old(doCalls) ==> err != nil
+//@   ensures E3: doCalls == old(doCalls) + 1 && (lastErr(c.ic) != nil || lastStatus(c.ic) != 207) ==> err != nil && (lastErr(c.ic) == nil && lastStatus(c.ic) / 100 != 2 ==> httpCode(err) == lastStatus(c.ic))
+//@   ensures E4: err == nil ==> doCalls == old(doCalls) + 1 && lastErr(c.ic) == nil && lastStatus(c.ic) == 207
+//@   ensures E5: err != nil ==> len(cos) == 0
 //@   ensures G1: sentCount == 1 && sentMethod == "REPORT" && sentPath == path
 //@   ensures G2: let w : dynPtr(sentBody, "*calendarMultiget") in w != nil && calDataCarried(w.Prop, multiGet.CompRequest)
 //@   |   && (len(multiGet.Paths) == 0 ? (len(w.Hrefs) == 1 && w.Hrefs[0].Path == path)
